@@ -13,7 +13,7 @@ stdin : JSON list of jobs
                                               compiled in turn in this process; the folder is edited in place between the compiles
                                               (files added / deleted / rewritten, untouched files keep inode and mtime) -> {"seq": [result, ...]}
 stdout: JSON list of
-   {"ok": true, "files": {path: text}, "opens": [...], "globs": {dir: [files]}}
+   {"ok": true, "files": {path: text}, "opens": [...], "globs": {dir: [files]}}      (the real root in a text is written "{ROOT}")
    {"ok": false, "exc": class name, "jmc": bool, "msg": str, "opens": [...], "globs": {...}}
 "opens" = every *.jmc file opened for reading during the compile, in order, relative to the root.
 """
@@ -95,7 +95,7 @@ def run_job(job, PyJMC, jmc_excs):
         signal.alarm(int(job.get("timeout", 20)))
         try:
             p = PyJMC("ns", "d", "48", job["target"].replace("{ROOT}", root))
-            files = {k.as_posix(): v for k, v in p.files.items()}
+            files = {k.as_posix(): v.replace(root, "{ROOT}") for k, v in p.files.items()}
             res = {"ok": True, "files": files}
         except _Timeout:
             res = {"ok": False, "exc": "Timeout", "jmc": False, "msg": ""}
@@ -168,7 +168,7 @@ def run_seq(seq, PyJMC, jmc_excs):
             signal.alarm(int(job.get("timeout", 20)))
             try:
                 p = PyJMC("ns", "d", "48", job["target"].replace("{ROOT}", root))
-                res = {"ok": True, "files": {k.as_posix(): v for k, v in p.files.items()}}
+                res = {"ok": True, "files": {k.as_posix(): v.replace(root, "{ROOT}") for k, v in p.files.items()}}
             except _Timeout:
                 res = {"ok": False, "exc": "Timeout", "jmc": False, "msg": ""}
             except BaseException as e:  # noqa
